@@ -312,12 +312,21 @@ def enums(draw, ctx: Ctx, used):
 def classes(draw, ctx: Ctx, path: Tuple[str, ...]):
     prof = ctx.prof
     used = ctx.names(path)
-    name = draw(class_name(used).filter(
-        lambda s: not prof.unique_lower_class_names or s.lower() not in ctx.lower_classes))
+    others = sorted({d.name for d in ctx.decls
+                     if d.kind == 'class' and d.path != path and d.name not in used})
+    reused = False
+    if prof.same_name_other_ns and others and draw(st.integers(0, 2)) == 0:
+        # the same class name in another namespace (no nested enums then: the pybind
+        # generator names the enum scope variable after the lower-cased class name)
+        name = draw(st.sampled_from(others))
+        reused = True
+    else:
+        name = draw(class_name(used).filter(
+            lambda s: not prof.unique_lower_class_names or s.lower() not in ctx.lower_classes))
     used.add(name)
     ctx.lower_classes.add(name.lower())
     template = None
-    if prof.templates and draw(st.integers(0, prof.class_template_odds)) == 0:
+    if prof.templates and draw(st.integers(0, 0 if reused else prof.class_template_odds)) == 0:
         template = draw(templates(ctx))
     ctp = tuple(template.names()) if template else ()
     class_ok = {p.name for p in template.params if not any(i.targs for i in p.insts)} \
@@ -345,7 +354,7 @@ def classes(draw, ctx: Ctx, path: Tuple[str, ...]):
     kinds = ['ctor', 'method', 'method', 'method', 'static', 'prop']
     if prof.operators:
         kinds.append('op')
-    if prof.enums:
+    if prof.enums and not (reused and prof.unique_lower_class_names):
         kinds.append('enum')
     kinds.append('dunder')
     for _ in range(n):
@@ -447,6 +456,9 @@ def typedefs(draw, ctx: Ctx, path):
     if findings.is_open('F-7-typedef-after-namespace'):
         # the template's namespace must enclose (or be) the typedef's namespace
         targets = [d for d in targets if d.path == path[:len(d.path)]]
+    shared = [d for d in targets if any(x is not d and x.name == d.name for x in ctx.decls)]
+    if shared and draw(st.booleans()):
+        targets = shared
     if targets:
         d = draw(st.sampled_from(targets))
         ns, nm, n = d.path, d.name, d.nparams
